@@ -1,9 +1,295 @@
 import Tup.DrvUtil
-/-! Driver for group Db (stub; the group's owner fills it in). -/
+import Tup.Model.UploadInfo
+import Tup.Spec.Layout
+import Tup.Spec.AllocStep
+import Tup.Spec.Retention
+/-!
+  Driver of the database group (C01, C02, C04; reused by C03 / C12): a *stateful session*.
+  The driver keeps
+  * `db`   — the model database (`Model.Db`), advanced by the model operations,
+  * `prev`/`cur` — the two most recent dumps of the *implementation's* tables (`impl …` shifts),
+    on which the independent specification (`Spec.AllocStep`) is evaluated,
+  * `logs` — the ghost arrival logs of `Spec.Retention`, one per terminal.
+
+  Wire format: descriptions / terminal names as hex of their UTF-8 bytes (`-` = empty);
+  a table is one token `id:desc:atime,id:desc:atime,…` (`-` = empty) sorted by id; the upload table
+  `id:term:desc:size:time,…` sorted by (id, term); times are µs since `datetime.min`.
+-/
 namespace Tup.Drv.Db
 open Tup
+open Tup.Spec
 
-def handle : List String → String
-  | _ => "bad"
+structure St where
+  cfg : Cfg := {}
+  db : Db := {}
+  prev : Db := {}
+  cur : Db := {}
+  logs : List (String × Retention.Log) := []
+deriving Inhabited
+
+/-! ### parsing / printing -/
+
+def strOfHex (h : String) : Option String := do
+  let bs ← ofHex h
+  String.fromUTF8? (ByteArray.mk bs.toArray)
+
+def hexOfStr (s : String) : String := hexOut s.toUTF8.data.toList
+
+def spaceOf (cb u3 : String) : Option Space := do
+  let c ← cb.toNat?
+  pure ⟨c, u3 = "1"⟩
+
+/-- `*` as colour bits = `id_space=None` -/
+def spaceOpt (cb u3 : String) : Option (Option Space) :=
+  if cb = "*" then some none else (spaceOf cb u3).map some
+
+def parseNats (s : String) : Option (List Nat) :=
+  if s = "-" then some [] else (s.splitOn ",").mapM String.toNat?
+
+def parseRounds (s : String) : Option (List (List Nat)) :=
+  if s = "-" then some [] else (s.splitOn "/").mapM parseNats
+
+def natsStr (l : List Nat) : String := if l.isEmpty then "-" else ",".intercalate (l.map toString)
+
+def parseRow (s : String) : Option Row :=
+  match s.splitOn ":" with
+  | [i, d, a] => do pure ⟨← i.toNat?, ← strOfHex d, ← a.toNat?⟩
+  | _ => none
+
+def parseTable (s : String) : Option Table :=
+  if s = "-" then some [] else (s.splitOn ",").mapM parseRow
+
+def parseURow (s : String) : Option URow :=
+  match s.splitOn ":" with
+  | [i, t, d, z, tm] => do pure ⟨← i.toNat?, ← strOfHex t, ← strOfHex d, ← z.toNat?, ← tm.toNat?⟩
+  | _ => none
+
+def parseUploads (s : String) : Option (List URow) :=
+  if s = "-" then some [] else (s.splitOn ",").mapM parseURow
+
+def parseKeys (s : String) : Option (List (Nat × String)) :=
+  if s = "-" then some []
+  else (s.splitOn ",").mapM fun k => match k.splitOn ":" with
+    | [i, t] => do pure (← i.toNat?, ← strOfHex t)
+    | _ => none
+
+def rowStr (r : Row) : String := s!"{r.id}:{hexOfStr r.desc}:{r.atime}"
+def tableStr (t : Table) : String := if t.isEmpty then "-" else ",".intercalate (t.map rowStr)
+def urowStr (r : URow) : String := s!"{r.id}:{hexOfStr r.term}:{hexOfStr r.desc}:{r.size}:{r.time}"
+def uploadsStr (us : List URow) : String := if us.isEmpty then "-" else ",".intercalate (us.map urowStr)
+
+def dumpStr (db : Db) : String :=
+  " ".intercalate ((Space.all.map fun s => tableStr (canonTable (db.ids s))) ++ [uploadsStr (canonUploads db.uploads)])
+
+def parseDump (ts : List String) : Option Db :=
+  match ts with
+  | [a, b, c, d, e, u] => do
+    pure { t0 := ← parseTable a, t1 := ← parseTable b, t2 := ← parseTable c, t3 := ← parseTable d,
+           t4 := ← parseTable e, uploads := ← parseUploads u }
+  | _ => none
+
+def tok (s : String) : String := String.ofList (s.toList.map fun c => if c = ' ' then '_' else c)
+
+def errStr : Err → String
+  | .valueError => "err valueError"
+  | .keyError => "err keyError"
+  | .badChoice w => s!"err badChoice {tok w}"
+
+def outcomeStr : Outcome → String
+  | .hit => "hit"
+  | .fresh => "fresh"
+  | .recycled v => s!"recycled {rowStr v}"
+  | .sampled r => s!"sampled {natsStr r}"
+  | .exhausted r => s!"exhausted {natsStr r}"
+
+def clausesStr (l : List String) : String := if l.isEmpty then "ok" else ",".intercalate (l.map tok)
+
+def logOf (st : St) (term : String) : Retention.Log :=
+  match st.logs.find? (fun p => p.1 == term) with
+  | some p => p.2
+  | none => []
+
+def setLog (st : St) (term : String) (l : Retention.Log) : St :=
+  { st with logs := (term, l) :: st.logs.filter (fun p => p.1 != term) }
+
+def thrOf (a b c : String) : Option Thresholds := do
+  pure { maxUploads := ← a.toNat?, maxBytes := ← b.toNat?, maxTime := ← c.toNat? }
+
+/-! ### the session step -/
+
+def step (st : St) : List String → St × String
+  | ["reset", m] => match m.toNat? with
+      | some m => ({ cfg := { maxIds := m } }, "ok")
+      | none => (st, "bad")
+  | ["dump"] => (st, dumpStr st.db)
+  -- model operations ----------------------------------------------------------------------------
+  | ["get", cb, u3, b, e, d, now, pick, samples, removed] =>
+      match spaceOf cb u3, b.toNat?, e.toNat?, strOfHex d, now.toNat?, pick.toNat?, parseRounds samples, parseRounds removed with
+      | some s, some b, some e, some d, some now, some pick, some ss, some rs =>
+        match getId st.cfg st.db ⟨s, ⟨b, e⟩, d⟩ now { pick := pick, samples := ss, removed := rs } with
+        | .error er => (st, errStr er)
+        | .ok (db', .id n, out) => ({ st with db := db' }, s!"ok id {n} {outcomeStr out}")
+        | .ok (db', .noUnusedId, out) => ({ st with db := db' }, s!"ok noid {outcomeStr out}")
+      | _, _, _, _, _, _, _, _ => (st, "bad")
+  | ["set", id, d, now] =>
+      match id.toNat?, strOfHex d, now.toNat? with
+      | some id, some d, some now =>
+        (match setId st.db id d now with
+         | .error er => (st, errStr er)
+         | .ok db' => ({ st with db := db' }, "ok"))
+      | _, _, _ => (st, "bad")
+  | ["del", id] =>
+      match id.toNat? with
+      | some id =>
+        (match delId st.db id with
+         | .error er => (st, errStr er)
+         | .ok db' => ({ st with db := db' }, "ok"))
+      | _ => (st, "bad")
+  | ["cleanup", cb, u3, b, e, m, removed] =>
+      match spaceOf cb u3, b.toNat?, e.toNat?, m.toNat?, parseNats removed with
+      | some s, some b, some e, some m, some rm =>
+        (match cleanup st.db s ⟨b, e⟩ m rm with
+         | .error er => (st, errStr er)
+         | .ok db' => ({ st with db := db' }, "ok"))
+      | _, _, _, _, _ => (st, "bad")
+  | ["info", id] =>
+      match id.toNat? with
+      | some id =>
+        (match getInfo st.db id with
+         | .error er => (st, errStr er)
+         | .ok none => (st, "none")
+         | .ok (some r) => (st, s!"row {rowStr r}"))
+      | _ => (st, "bad")
+  | ["getall", cb, u3, b, e] =>
+      match spaceOpt cb u3, b.toNat?, e.toNat? with
+      | some s, some b, some e => (st, tableStr (getAll st.db s ⟨b, e⟩))
+      | _, _, _ => (st, "bad")
+  | ["count", cb, u3, b, e] =>
+      match spaceOpt cb u3, b.toNat?, e.toNat? with
+      | some s, some b, some e => (st, toString (count st.db s ⟨b, e⟩))
+      | _, _, _ => (st, "bad")
+  | ["bulk", cb, u3, rows] =>
+      -- mirror of a direct bulk INSERT of fresh keys into one table
+      match spaceOf cb u3, parseTable rows with
+      | some s, some rows => ({ st with db := st.db.setIds s (rows ++ st.db.ids s) }, "ok")
+      | _, _ => (st, "bad")
+  | ["fraclimits", cb, u3, b, e] =>
+      match spaceOf cb u3, b.toNat?, e.toNat? with
+      | some s, some b, some e =>
+        let size := s.subspaceSize ⟨b, e⟩
+        let ls := fracs.filterMap fun f => f.map (fracLimit st.cfg size)
+        (st, s!"{size} {boolStr (isEnumerable st.cfg s ⟨b, e⟩)} {natsStr ls}")
+      | _, _, _ => (st, "bad")
+  -- upload operations ---------------------------------------------------------------------------
+  | ["mark", id, term, size, time] =>
+      match id.toNat?, strOfHex term, size.toNat?, time.toNat? with
+      | some id, some term, some size, some time =>
+        (match markUploaded st.db id term size time with
+         | .error er => (st, errStr er)
+         | .ok db' => ({ st with db := db' }, "ok"))
+      | _, _, _, _ => (st, "bad")
+  | ["upinfo", id, term] =>
+      match id.toNat?, strOfHex term with
+      | some id, some term =>
+        (match getUploadInfo st.db id term with
+         | none => (st, "none")
+         | some i => (st, s!"info {i.id} {hexOfStr i.desc} {i.time} {hexOfStr i.term} {i.size} {i.bytesAgo} {i.uploadsAgo}"))
+      | _, _ => (st, "bad")
+  | ["needs", id, term, mu, mb, mt, now] =>
+      match id.toNat?, strOfHex term, thrOf mu mb mt, now.toNat? with
+      | some id, some term, some thr, some now =>
+        (match needsUploading st.db id term thr now with
+         | .error er => (st, errStr er)
+         | .ok b => (st, boolStr b))
+      | _, _, _, _ => (st, "bad")
+  | ["cleanup_uploads", n, kept] =>
+      match n.toNat?, parseKeys kept with
+      | some n, some kept =>
+        (match cleanupUploads st.db n kept with
+         | .error er => (st, errStr er)
+         | .ok db' => ({ st with db := db' }, "ok"))
+      | _, _ => (st, "bad")
+  -- implementation dumps and the independent specification -------------------------------------
+  | "impl" :: ts =>
+      match parseDump ts with
+      | some d => ({ st with prev := st.cur, cur := d }, "ok")
+      | none => (st, "bad")
+  | ["spec_wf"] => (st, clausesStr (AllocStep.checkWellFormed st.cur))
+  | ["spec_get", m, cb, u3, b, e, d, now, res, probes] =>
+      match m.toNat?, spaceOf cb u3, b.toNat?, e.toNat?, strOfHex d, now.toNat?, parseNats probes with
+      | some m, some s, some b, some e, some d, some now, some probes =>
+        let r : Option (Option Nat) := if res = "none" then some none else res.toNat?.map some
+        (match r with
+         | some r => (st, clausesStr (AllocStep.checkGet m st.prev st.cur s ⟨b, e⟩ d now r probes))
+         | none => (st, "bad"))
+      | _, _, _, _, _, _, _ => (st, "bad")
+  | ["spec_set", id, d, now, err] =>
+      match id.toNat?, strOfHex d, now.toNat? with
+      | some id, some d, some now => (st, clausesStr (AllocStep.checkSet st.prev st.cur id d now (err = "1")))
+      | _, _, _ => (st, "bad")
+  | ["spec_del", id, err] =>
+      match id.toNat? with
+      | some id => (st, clausesStr (AllocStep.checkDel st.prev st.cur id (err = "1")))
+      | _ => (st, "bad")
+  | ["spec_cleanup", cb, u3, b, e, m] =>
+      match spaceOf cb u3, b.toNat?, e.toNat?, m.toNat? with
+      | some s, some b, some e, some m => (st, clausesStr (AllocStep.checkCleanup st.prev st.cur s ⟨b, e⟩ m))
+      | _, _, _, _ => (st, "bad")
+  | ["spec_listing", cb, u3, b, e, rows] =>
+      match spaceOpt cb u3, b.toNat?, e.toNat?, parseTable rows with
+      | some s, some b, some e, some rows => (st, clausesStr (AllocStep.checkListing st.cur s ⟨b, e⟩ rows))
+      | _, _, _, _ => (st, "bad")
+  | ["spec_count", cb, u3, b, e, n] =>
+      match spaceOpt cb u3, b.toNat?, e.toNat?, n.toNat? with
+      | some s, some b, some e, some n => (st, clausesStr (AllocStep.checkCount st.cur s ⟨b, e⟩ n))
+      | _, _, _, _ => (st, "bad")
+  | ["spec_info", id, row, err] =>
+      match id.toNat? with
+      | some id =>
+        let r : Option (Option Row) := if row = "none" then some none else (parseRow row).map some
+        (match r with
+         | some r => (st, clausesStr (AllocStep.checkInfo st.cur id r (err = "1")))
+         | none => (st, "bad"))
+      | _ => (st, "bad")
+  | ["spec_unchanged"] => (st, clausesStr (AllocStep.checkUnchanged st.prev st.cur))
+  | ["spec_idsunchanged"] => (st, clausesStr (AllocStep.checkIdsUnchanged st.prev st.cur))
+  | ["spec_member", cb, u3, b, e, id] =>
+      match spaceOf cb u3, b.toNat?, e.toNat?, id.toNat? with
+      | some s, some b, some e, some n => (st, boolStr (Spec.member s ⟨b, e⟩ n))
+      | _, _, _, _ => (st, "bad")
+  -- ghost arrival logs (Spec.Retention) ----------------------------------------------------------
+  | ["ghost_arrive", term, id, d, size, time] =>
+      match strOfHex term, id.toNat?, strOfHex d, size.toNat?, time.toNat? with
+      | some term, some id, some d, some size, some time =>
+        (setLog st term (Retention.arrive (logOf st term) ⟨id, d, size, time⟩), "ok")
+      | _, _, _, _, _ => (st, "bad")
+  | ["ghost_judge", term, id, bound, present, mu, mb, mt, now, answer] =>
+      match strOfHex term, id.toNat?, thrOf mu mb mt, now.toNat? with
+      | some term, some id, some thr, some now =>
+        let bd : Option (Option String) := if bound = "none" then some none else (strOfHex bound).map some
+        (match bd with
+         | some bd =>
+           let log := logOf st term
+           (st, s!"{clausesStr (Retention.judge thr log id bd (present = "1") now (answer = "1"))} {boolStr (Retention.strictlyIncreasing log)} {boolStr (Retention.nonDecreasing log)} {boolStr (Retention.stillThere thr log id now)}")
+         | none => (st, "bad"))
+      | _, _, _, _ => (st, "bad")
+  | _ => (st, "bad")
+
+/-- stateless view (contract of `HARNESS.md`): one request against a fresh session -/
+def handle (args : List String) : String := (step {} args).2
+
+partial def mainLoop : IO Unit := do
+  let stdin ← IO.getStdin
+  let stdout ← IO.getStdout
+  let rec loop (st : St) : IO Unit := do
+    let line ← stdin.getLine
+    if line.isEmpty then return ()
+    let l := (line.dropEndWhile (fun c => c = '\n' || c = '\r')).toString
+    let args := (l.splitOn " ").filter (· ≠ "")
+    let (st', out) := step st args
+    stdout.putStrLn out
+    stdout.flush
+    loop st'
+  loop {}
 
 end Tup.Drv.Db
